@@ -45,7 +45,7 @@ CONSTANTS
   MaxTx = %(maxtx)d
   MaxRollbacks = %(rolls)d
   RollDepth = %(rolldepth)d
-  DupWithdrawRule = %(dup)s
+  DupRule = %(dup)s
 VIEW view
 INVARIANTS TypeOK HistConsistent VotesSane MembersSane %(inv)s
 %(emit)s
@@ -56,10 +56,10 @@ C29_INV = "C29PaidWithinApproved C29StagePaidOnce C29WithdrawnWasWithdrawable C2
 
 
 def dup_rule_expected():
-    """CheckDuplicateTx refuses two withdrawals of one proposal in a block once the finding
-    C29:double-withdraw-in-block is not listed as open (i.e. the repair is in the tree)."""
-    return not any(k.get("key") == "C29:double-withdraw-in-block" and k.get("status", "open") == "open"
-                   for k in vf.load_known())
+    """CheckDuplicateTx refuses a second withdrawal / tracking of one proposal in a block unless
+    that is listed as an open finding (then the spec models the code as it is: DupRule = FALSE)."""
+    return not any(k.get("key") in ("C29:double-withdraw-in-block", "C29:double-tracking-in-block")
+                   and k.get("status", "open") == "open" for k in vf.load_known())
 
 
 def cfg(scenario, kinds, steps, maxtx=2, rolls=1, rolldepth=3, emit="", inv=C29_INV, dup=None,
@@ -93,7 +93,7 @@ def preamble_of(res):
 
 def driver_cfg(preambles, dup=None):
     d = dict(CONST)
-    d["DupWithdrawRule"] = dup_rule_expected() if dup is None else dup
+    d["DupRule"] = dup_rule_expected() if dup is None else dup
     d["Preambles"] = preambles
     p = os.path.join(vf.scratch(), "crstate-cfg.json")
     with open(p, "w") as f:
